@@ -92,6 +92,10 @@ pub fn check(_sub: &str, cfg: &'static dyn Config, input: &Input, rec: &mut Rec)
                 return Verdict::Excluded("the command-line tool is not built");
             }
             let r = crate::props::c20::run_cli(bytes);
+            if r.hung {
+                // the library (C01) or the tool's own loop (C20)? not decidable from here
+                crate::engine::infra_error("the dev-profile tool did not finish a huge-input stream within 60 s / 180 s; inconclusive for C01 (C20 judges the tool)");
+            }
             if r.signal || matches!(r.status, Some(101) | Some(134) | Some(139)) {
                 let tail = String::from_utf8_lossy(&r.stderr);
                 return Verdict::fail(
